@@ -1,3 +1,4 @@
 -- Every property-theorem module (what `setup.sh` pre-builds).
 import AcryoVerif.Props.C02
 import AcryoVerif.Props.C06
+import AcryoVerif.Props.C08
